@@ -148,11 +148,13 @@ func (db *DB) unlockWrite(overflow bool, merged int, err error) {
 	if overflow {
 		// Pass lock to the next write (that failed to merge).
 		verifEvent(VerifEvHandover, 0, 0)
+		verifEvent(202, 10, 0)
 		db.writeMergedC <- false
 		verifEvent(VerifEvHandoverDone, 0, 0)
 	} else {
 		// Release lock.
 		verifEvent(VerifEvRelease, 0, 0)
+		verifEvent(201, 10, 0)
 		<-db.writeLockC
 	}
 }
@@ -332,8 +334,10 @@ func (db *DB) Write(batch *Batch, wo *opt.WriteOptions) error {
 				return <-db.writeAckC
 			}
 			// Write is not merged, the write lock is handed to us. Continue.
+			verifEvent(203, 1, 0)
 			verifEvent(VerifEvSelHanded, verifWID(batch, nil), 0)
 		case db.writeLockC <- struct{}{}:
+			verifEvent(200, 1, 0)
 			verifEvent(VerifEvSelLock, verifWID(batch, nil), 0)
 			// Write lock acquired.
 		case err := <-db.compPerErrC:
@@ -348,6 +352,7 @@ func (db *DB) Write(batch *Batch, wo *opt.WriteOptions) error {
 	} else {
 		select {
 		case db.writeLockC <- struct{}{}:
+			verifEvent(200, 1, 0)
 			verifEvent(VerifEvSelLock, verifWID(batch, nil), 0)
 			// Write lock acquired.
 		case err := <-db.compPerErrC:
@@ -383,8 +388,10 @@ func (db *DB) putRec(kt keyType, key, value []byte, wo *opt.WriteOptions) error 
 				return <-db.writeAckC
 			}
 			// Write is not merged, the write lock is handed to us. Continue.
+			verifEvent(203, 2, 0)
 			verifEvent(VerifEvSelHanded, verifWID(nil, key), 0)
 		case db.writeLockC <- struct{}{}:
+			verifEvent(200, 2, 0)
 			verifEvent(VerifEvSelLock, verifWID(nil, key), 0)
 			// Write lock acquired.
 		case err := <-db.compPerErrC:
@@ -399,6 +406,7 @@ func (db *DB) putRec(kt keyType, key, value []byte, wo *opt.WriteOptions) error 
 	} else {
 		select {
 		case db.writeLockC <- struct{}{}:
+			verifEvent(200, 2, 0)
 			verifEvent(VerifEvSelLock, verifWID(nil, key), 0)
 			// Write lock acquired.
 		case err := <-db.compPerErrC:
@@ -454,6 +462,8 @@ func isMemOverlaps(icmp *iComparer, mem *memdb.DB, min, max []byte) bool {
 // And a nil Range.Limit is treated as a key after all keys in the DB.
 // Therefore if both is nil then it will compact entire DB.
 func (db *DB) CompactRange(r util.Range) error {
+	defer verifEvent(221, 6, 0)
+	verifEvent(220, 6, 0)
 	if err := db.ok(); err != nil {
 		return err
 	}
@@ -461,6 +471,7 @@ func (db *DB) CompactRange(r util.Range) error {
 	// Lock writer.
 	select {
 	case db.writeLockC <- struct{}{}:
+		verifEvent(200, 6, 0)
 		verifEvent(VerifEvCRLock, 0, 0)
 	case err := <-db.compPerErrC:
 		return err
@@ -478,16 +489,19 @@ func (db *DB) CompactRange(r util.Range) error {
 		// Memdb compaction.
 		if _, err := db.rotateMem(0, false); err != nil {
 			verifEvent(VerifEvCRUnlock, 0, 0)
+			verifEvent(201, 6, 0)
 			<-db.writeLockC
 			return err
 		}
 		verifEvent(VerifEvCRUnlock, 0, 0)
+		verifEvent(201, 6, 0)
 		<-db.writeLockC
 		if err := db.compTriggerWait(db.mcompCmdC); err != nil {
 			return err
 		}
 	} else {
 		verifEvent(VerifEvCRUnlock, 0, 0)
+		verifEvent(201, 6, 0)
 		<-db.writeLockC
 	}
 
@@ -497,6 +511,8 @@ func (db *DB) CompactRange(r util.Range) error {
 
 // SetReadOnly makes DB read-only. It will stay read-only until reopened.
 func (db *DB) SetReadOnly() error {
+	defer verifEvent(221, 7, 0)
+	verifEvent(220, 7, 0)
 	if err := db.ok(); err != nil {
 		return err
 	}
@@ -504,6 +520,7 @@ func (db *DB) SetReadOnly() error {
 	// Lock writer.
 	select {
 	case db.writeLockC <- struct{}{}:
+		verifEvent(200, 7, 0)
 		db.compWriteLocking = true
 		verifEvent(VerifEvROLock, 0, 0)
 	case err := <-db.compPerErrC:
@@ -515,6 +532,7 @@ func (db *DB) SetReadOnly() error {
 	// Set compaction read-only.
 	select {
 	case db.compErrSetC <- ErrReadOnly:
+		verifEvent(205, 7, 0)
 		verifEvent(VerifEvROSent, 0, 0)
 	case perr := <-db.compPerErrC:
 		return perr
